@@ -8,6 +8,8 @@ import HealSparse.Model.WideMask
 import HealSparse.Model.Api
 import HealSparse.Lemmas.WideMask
 import HealSparse.Lemmas.ApiReject
+import HealSparse.Props.C02
+import HealSparse.Lemmas.ApiBits
 namespace HS
 namespace C13
 
@@ -154,6 +156,623 @@ theorem reject_big_bit_operator (m : MapObj) (op : String) (bits : List Nat)
 /-- non-vacuity / byte-boundary witnesses -/
 example : bitvalsToPacked [0, 7, 8, 16] 24 = [129, 1, 1] := by decide
 example : IsRow [129, 1, 1] 3 := by unfold IsRow; decide
+
+open ApiBits ApiRanges
+
+/-! ## Wide masks as bit sets at the API level
+
+`hasBit v b` (Lemmas/ApiBits.lean): bit `b` of a byte-row cell `v` — byte `b / 8`, bit `b % 8`.
+`WideMap m n`: `m` is well formed, of kind `wide n` (so `maxbits = 8 n`), with zero sentinel,
+owns its storage, and every pixel reads as a row of `n` bytes.  `make_empty` establishes it,
+the bit API and the bit-list operators preserve it; `MapObj.Ok` alone does NOT give it (see
+the counterexamples at the end). -/
+
+theorem isRowVal_isRow {n : Nat} {row : List Nat} : isRowVal n (.bytes row) = true ↔ IsRow row n := by
+  rw [isRowVal_iff]
+  exact ⟨fun ⟨r, hr, h1, h2⟩ => by cases hr; exact ⟨h1, h2⟩, fun h => ⟨row, rfl, h.1, h.2⟩⟩
+
+/-- (6) **bytes**: bit `b` of a row lives in byte `b / 8`, at bit `b % 8` of that byte -/
+theorem hasBit_bytes (row : List Nat) (b : Nat) :
+    hasBit (.bytes row) b = (row.getD (b / 8) 0).testBit (b % 8) := rfl
+
+/-- (6) the packed form of a bit list has exactly the listed bits (`pack_testBit`) -/
+theorem hasBit_packed (bits : List Nat) (n b : Nat) (hb : b < 8 * n) :
+    hasBit (.bytes (bitvalsToPacked bits (8 * n))) b = bits.contains b :=
+  pack_testBit bits (8 * n) b (by rw [Nat.mul_div_cancel_left n (by decide)]; exact hb)
+
+/-- a row of `n` bytes has no bit at or above `8 n` -/
+theorem hasBit_big {n : Nat} {v : Val} (hv : isRowVal n v = true) {b : Nat} (hb : 8 * n ≤ b) :
+    hasBit v b = false := by
+  obtain ⟨row, rfl, hl, _⟩ := isRowVal_iff.1 hv
+  show (row.getD (b / 8) 0).testBit (b % 8) = false
+  have : row.length ≤ b / 8 := by omega
+  rw [List.getD_eq_getElem?_getD, List.getElem?_eq_none this]
+  simp
+
+theorem contains_big {bits : List Nat} {n b : Nat} (hbits : ∀ x ∈ bits, x < 8 * n) (hb : 8 * n ≤ b) :
+    bits.contains b = false := by
+  rw [Bool.eq_false_iff]
+  intro h
+  have := hbits b (by simpa using h)
+  omega
+
+/-- the four cell operations of the bit API on a row of `n` bytes, bit by bit -/
+theorem cell_ops {n : Nat} {x : Val} (hx : isRowVal n x = true) (bits : List Nat)
+    (hbits : ∀ b ∈ bits, b < 8 * n) (dt : DT) :
+    (isRowVal n (Val.or dt x (.bytes (bitvalsToPacked bits (8 * n)))) = true ∧
+      ∀ b, hasBit (Val.or dt x (.bytes (bitvalsToPacked bits (8 * n)))) b
+        = (hasBit x b || bits.contains b)) ∧
+    (isRowVal n (Val.and dt x (.bytes (complBytes (bitvalsToPacked bits (8 * n))))) = true ∧
+      ∀ b, hasBit (Val.and dt x (.bytes (complBytes (bitvalsToPacked bits (8 * n))))) b
+        = (hasBit x b && !bits.contains b)) ∧
+    (isRowVal n (Val.and dt x (.bytes (bitvalsToPacked bits (8 * n)))) = true ∧
+      ∀ b, hasBit (Val.and dt x (.bytes (bitvalsToPacked bits (8 * n)))) b
+        = (hasBit x b && bits.contains b)) ∧
+    (isRowVal n (Val.xor dt x (.bytes (bitvalsToPacked bits (8 * n)))) = true ∧
+      ∀ b, hasBit (Val.xor dt x (.bytes (bitvalsToPacked bits (8 * n)))) b
+        = (hasBit x b != bits.contains b)) := by
+  obtain ⟨row, rfl, hl, hlt⟩ := isRowVal_iff.1 hx
+  have hr : IsRow row n := ⟨hl, hlt⟩
+  obtain ⟨p1, p2, p3⟩ := ops_preserve_isRow row bits n hr
+  have p4 : IsRow (List.zipWith (· &&& ·) row (bitvalsToPacked bits (8 * n))) n := by
+    refine ⟨by simp [hl, length_packed], ?_⟩
+    exact WideMask.lt_of_mem_zipWith _ _ _
+      (fun x y _ hy => Nat.and_lt_two_pow (n := 8) x hy) hlt
+      (WideMask.lt_of_mem_bitvalsToPacked bits (8 * n))
+  have big : ∀ {r : List Nat}, IsRow r n → ∀ b, 8 * n ≤ b → hasBit (.bytes r) b = false :=
+    fun hr' b hb => hasBit_big (isRowVal_isRow.2 hr') hb
+  refine ⟨⟨isRowVal_isRow.2 p1, fun b => ?_⟩, ⟨isRowVal_isRow.2 p2, fun b => ?_⟩,
+    ⟨isRowVal_isRow.2 p4, fun b => ?_⟩, ⟨isRowVal_isRow.2 p3, fun b => ?_⟩⟩
+  all_goals
+    by_cases hb : b < 8 * n
+    case neg =>
+      have hb' : 8 * n ≤ b := Nat.le_of_not_lt hb
+      rw [big hr b hb', contains_big hbits hb']
+      first
+        | exact big p1 b hb'
+        | exact big p2 b hb'
+        | exact big p4 b hb'
+        | exact big p3 b hb'
+  · exact set_bits_spec row bits n b hr hb
+  · exact clear_bits_spec row bits n b hr hb
+  · exact and_bits_spec row bits n b hr hb
+  · exact xor_bits_spec row bits n b hr hb
+
+variable {m : MapObj} {n : Nat}
+
+theorem bits_lt_of_not_any {bits : List Nat} {k : Nat}
+    (h : ¬ (bits.any fun x => decide (x ≥ k)) = true) : ∀ b ∈ bits, b < k :=
+  WFApi.lt_of_not_any_ge h
+
+/-- (5) **validity = non-empty set**: a row of `n` bytes is valid iff some bit position below
+    `8 n` is set -/
+theorem valid_iff_hasBit (hm : WideMap m n) {v : Val} (hv : isRowVal n v = true) :
+    m.vc.valid v = (List.range (8 * n)).any (fun b => hasBit v b) := by
+  obtain ⟨row, rfl, hl, hlt⟩ := isRowVal_iff.1 hv
+  unfold MapObj.vc
+  rw [hm.kind]
+  exact valid_iff_nonempty row n ⟨hl, hlt⟩
+
+theorem valid_iff_exists (hm : WideMap m n) {v : Val} (hv : isRowVal n v = true) :
+    m.vc.valid v = true ↔ ∃ b, hasBit v b = true := by
+  rw [valid_iff_hasBit hm hv, List.any_eq_true]
+  constructor
+  · rintro ⟨b, _, h⟩; exact ⟨b, h⟩
+  · rintro ⟨b, h⟩
+    refine ⟨b, List.mem_range.2 ?_, h⟩
+    apply Nat.lt_of_not_le
+    intro hb
+    rw [hasBit_big hv hb] at h
+    cases h
+
+/-- (5) `n_valid` (computed) counts the pixels with a non-empty set -/
+theorem nValid_counts_nonempty (hm : WideMap m n) :
+    nValid m.vc m.st
+      = ((List.range m.npix).filter fun p =>
+          (List.range (8 * n)).any fun b => hasBit (m.abs p) b).length := by
+  rw [C02.nValid_eq m.c m.vc m.st hm.wf.2 (MapObj.blankInvalid_of_wide hm.kind)]
+  unfold C02.validSet
+  congr 1
+  apply List.filter_congr
+  intro p hp
+  exact valid_iff_hasBit hm (hm.rows p (List.mem_range.1 hp))
+
+/-- an uncovered pixel holds the empty set -/
+theorem uncovered_empty (hm : WideMap m n) {p : Nat} (hp : p < m.npix)
+    (hc : covered m.c m.st (p >>> m.c.shift) = false) (b : Nat) : hasBit (m.abs p) b = false := by
+  have : m.abs p = m.vc.sentinel := hm.wf.2.abs_uncovered hp hc
+  rw [this, blank_wide hm.kind]
+  exact hasBit_blank n b
+
+/-- `make_empty` of a wide-mask kind gives a `WideMap` in which every set is empty -/
+theorem wideMap_makeEmpty {co so : Nat} {sentinel : Option Val} {P : List Nat}
+    (h : apiMakeEmpty co so (.wide n) sentinel P = .ok m) :
+    WideMap m n ∧ ∀ p, p < m.npix → ∀ b, hasBit (m.abs p) b = false := by
+  have hwf := WF.apiMakeEmpty h
+  obtain ⟨_, h1, h2, h3, h4, hlt, _, hv⟩ := WFApi.apiMakeEmpty_ok h
+  have hs : m.sent = .num 0 0 := by
+    unfold apiMakeEmpty at h
+    simp only [bind, Except.bind, pure, Except.pure, throw, throwThe, MonadExceptOf.throw] at h
+    repeat' xpeel h
+    all_goals (cases h; rfl)
+  have habs : ∀ p, p < m.npix → m.abs p = .bytes (List.replicate n 0) := by
+    intro p hp
+    show abs m.c m.vc m.st p = _
+    have hc : m.c = cfgOf co so := by unfold MapObj.c; rw [h1, h2]
+    have hvc : m.vc = ⟨(Kind.wide n).blank m.sent, (Kind.wide n).valid m.sent⟩ := by
+      unfold MapObj.vc; rw [h3]
+    rw [h4, hc, hvc]
+    exact makeEmpty_abs' _ _ _ p
+  refine ⟨⟨hwf, h3, by rw [hs]; rfl, hv, fun p hp => by rw [habs p hp]; exact isRowVal_blank n⟩,
+    fun p hp b => by rw [habs p hp]; exact hasBit_blank n b⟩
+
+/-- **(1) `set_bits_pix` / `clear_bits_pix`, what they compute.**  On success the result is
+    again a `WideMap` with the same configuration; for every pixel and every bit position:
+    an addressed pixel's set becomes `S ∪ bits` (set) resp. `S \ bits` (clear), every other
+    pixel keeps its cell; repeated pixels and repeated bits are harmless; the coverage grows
+    by exactly the coverage pixels of the addressed pixels — in BOTH modes (clearing bits of a
+    pixel outside the coverage allocates its coverage pixel; the pixel stays empty). -/
+theorem api_set_bits {m' : MapObj} {pix bits : List Nat} {clear : Bool} (hm : WideMap m n)
+    (h : apiSetBits m pix bits clear = .ok m') :
+    WideMap m' n ∧ m'.covord = m.covord ∧ m'.spord = m.spord ∧ m'.cache = none ∧
+    (∀ p, p < m.npix → ∀ b, hasBit (m'.abs p) b =
+      if p ∈ pix then
+        (if clear then (hasBit (m.abs p) b && !bits.contains b)
+         else (hasBit (m.abs p) b || bits.contains b))
+      else hasBit (m.abs p) b) ∧
+    (∀ p, p < m.npix → p ∉ pix → m'.abs p = m.abs p) ∧
+    (∀ k, k < m.c.ncov → covered m.c m'.st k
+        = (covered m.c m.st k || pix.any fun q => q >>> m.c.shift == k)) := by
+  rw [apiSetBits_wide hm.kind hm.sent hm.view] at h
+  replace h := (WFApi.guard_ok h).2
+  have hb := bits_lt_of_not_any (WFApi.guard_ok h).1
+  replace h := (WFApi.guard_ok h).2
+  have hlt := bits_lt_of_not_any (WFApi.guard_ok h).1
+  replace h := (WFApi.guard_ok h).2
+  cases h
+  obtain ⟨hinv, hcov, habs⟩ := setSt_spec hm.wf n bits clear hlt
+  have hidem : ∀ (b : Nat) (y : Bool),
+      (fun b y => if clear then (y && !bits.contains b) else (y || bits.contains b)) b
+        ((fun b y => if clear then (y && !bits.contains b) else (y || bits.contains b)) b y)
+      = (fun b y => if clear then (y && !bits.contains b) else (y || bits.contains b)) b y := by
+    intro b y
+    simp only []
+    generalize bits.contains b = c
+    cases clear <;> cases y <;> cases c <;> rfl
+  have hg : ∀ x, isRowVal n x = true → isRowVal n (bitsCell m n bits clear x) = true ∧
+      ∀ b, hasBit (bitsCell m n bits clear x) b
+        = (fun b y => if clear then (y && !bits.contains b) else (y || bits.contains b)) b
+            (hasBit x b) := by
+    intro x hx
+    obtain ⟨c1, c2, _, _⟩ := cell_ops hx bits hb m.kind.dt
+    unfold bitsCell bitsValue
+    cases clear with
+    | true => exact c2
+    | false => exact c1
+  have hfold := fun p (hp : p < m.npix) =>
+    denseFold_idem (I := fun x => isRowVal n x = true)
+      (F := fun b y => if clear then (y && !bits.contains b) else (y || bits.contains b))
+      (bitsCell m n bits clear) hidem hg pix p
+      (m.abs p) (hm.rows p hp)
+  refine ⟨⟨⟨hm.wf.1, hinv⟩, hm.kind, hm.sent, hm.view, fun p hp => ?_⟩, rfl, rfl, rfl,
+    fun p hp b => ?_, fun p hp hnp => ?_, hcov⟩
+  · show isRowVal n (abs m.c m.vc (setSt m n pix bits clear) p) = true
+    rw [habs p hp]
+    exact (hfold p hp).1
+  · show hasBit (abs m.c m.vc (setSt m n pix bits clear) p) b = _
+    rw [habs p hp, (hfold p hp).2 b]
+  · show abs m.c m.vc (setSt m n pix bits clear) p = _
+    rw [habs p hp]
+    apply denseFold_not_mem
+    intro qw hq hqp
+    obtain ⟨q, hq', rfl⟩ := List.mem_map.1 hq
+    exact hnp (hqp ▸ hq')
+
+/-- (1) a pixel is valid after set / clear iff its new set is non-empty: a pixel whose last bit
+    is cleared becomes INVALID, setting a bit makes any addressed pixel valid -/
+theorem api_set_bits_valid {m' : MapObj} {pix bits : List Nat} {clear : Bool} (hm : WideMap m n)
+    (h : apiSetBits m pix bits clear = .ok m') (p : Nat) (hp : p < m.npix) :
+    (m'.vc.valid (m'.abs p) = true ↔
+      ∃ b, (if p ∈ pix then
+              (if clear then (hasBit (m.abs p) b && !bits.contains b)
+               else (hasBit (m.abs p) b || bits.contains b))
+            else hasBit (m.abs p) b) = true) := by
+  obtain ⟨hm', h1, h2, _, hbit, _, _⟩ := api_set_bits hm h
+  have hnp : m'.npix = m.npix := by unfold MapObj.npix MapObj.c; rw [h1, h2]
+  rw [valid_iff_exists hm' (hm'.rows p (by rw [hnp]; exact hp))]
+  constructor
+  · rintro ⟨b, hb⟩; exact ⟨b, by rw [← hbit p hp b]; exact hb⟩
+  · rintro ⟨b, hb⟩; exact ⟨b, by rw [hbit p hp b]; exact hb⟩
+
+/-- **(2) `check_bits_pix`.**  On success there is one answer per listed pixel, in order, and
+    it is `true` iff the pixel's set meets the bit list (an empty bit list is accepted and
+    answers `false` everywhere); an uncovered pixel answers `false`. -/
+theorem api_check_bits {pix bits : List Nat} {l : List Bool} (hm : WideMap m n)
+    (h : apiCheckBits m pix bits = .ok l) :
+    (∀ p ∈ pix, p < m.npix) ∧ (∀ b ∈ bits, b < 8 * n) ∧
+    l = pix.map fun p => bits.any fun b => hasBit (m.abs p) b := by
+  rw [apiCheckBits_wide hm.kind] at h
+  have hlt := bits_lt_of_not_any (WFApi.guard_ok h).1
+  replace h := (WFApi.guard_ok h).2
+  have hb := bits_lt_of_not_any (WFApi.guard_ok h).1
+  replace h := (WFApi.guard_ok h).2
+  cases h
+  refine ⟨hlt, hb, ?_⟩
+  apply List.map_congr_left
+  intro p hp
+  obtain ⟨row, hrow, hl, hrl⟩ := isRowVal_iff.1 (hm.rows p (hlt p hp))
+  rw [hrow]
+  exact check_bits_spec row bits n ⟨hl, hrl⟩ hb
+
+theorem api_check_bits_get {pix bits : List Nat} {l : List Bool} (hm : WideMap m n)
+    (h : apiCheckBits m pix bits = .ok l) (i : Nat) (hi : i < pix.length) :
+    l.getD i false = true ↔ ∃ b ∈ bits, hasBit (m.abs (pix.getD i 0)) b = true := by
+  obtain ⟨_, _, rfl⟩ := api_check_bits hm h
+  rw [List.getD_eq_getElem?_getD, List.getElem?_map, List.getElem?_eq_getElem hi,
+    List.getD_eq_getElem?_getD, List.getElem?_eq_getElem hi]
+  simp only [Option.map_some, Option.getD_some, List.any_eq_true]
+
+/-- **(3) errors of `set_bits_pix` / `clear_bits_pix`**, exactly: ValueError iff the bit list is
+    empty or names a position at or above `maxbits = 8 n` (whatever the pixels); otherwise
+    IndexError iff a pixel is outside the sphere; nothing else.  (NotImplementedError on a map
+    that is not a wide mask: `api_set_bits_not_wide`.) -/
+theorem api_set_bits_error {pix bits : List Nat} {clear : Bool} (hm : WideMap m n) (e : Err) :
+    apiSetBits m pix bits clear = .error e ↔
+      (e = .value ∧ (bits = [] ∨ ∃ b ∈ bits, 8 * n ≤ b)) ∨
+      (e = .index ∧ bits ≠ [] ∧ (∀ b ∈ bits, b < 8 * n) ∧ ∃ p ∈ pix, m.npix ≤ p) := by
+  rw [apiSetBits_wide hm.kind hm.sent hm.view]
+  by_cases h1 : bits = []
+  · have hE : bits.isEmpty = true := by rw [h1]; rfl
+    rw [if_pos hE]
+    constructor
+    · intro h; cases h; exact Or.inl ⟨rfl, Or.inl h1⟩
+    · rintro (⟨rfl, _⟩ | ⟨_, hne, _⟩)
+      · rfl
+      · exact absurd h1 hne
+  · have he : bits.isEmpty = false := by simpa using h1
+    simp only [he, Bool.false_eq_true, if_false]
+    by_cases h2 : (bits.any fun x => decide (x ≥ 8 * n)) = true
+    · simp only [h2, if_true]
+      obtain ⟨b, hb, hge⟩ := List.any_eq_true.1 h2
+      have hge' : 8 * n ≤ b := by simpa using hge
+      constructor
+      · intro h; cases h; exact Or.inl ⟨rfl, Or.inr ⟨b, hb, hge'⟩⟩
+      · rintro (⟨rfl, _⟩ | ⟨_, _, hall, _⟩)
+        · rfl
+        · have := hall b hb; omega
+    · simp only [h2, Bool.false_eq_true, if_false]
+      have hall := bits_lt_of_not_any h2
+      by_cases h3 : (pix.any fun x => decide (x ≥ m.npix)) = true
+      · simp only [h3, if_true]
+        obtain ⟨p, hp, hge⟩ := List.any_eq_true.1 h3
+        have hge' : m.npix ≤ p := by simpa using hge
+        constructor
+        · intro h; cases h; exact Or.inr ⟨rfl, h1, hall, p, hp, hge'⟩
+        · rintro (⟨rfl, hx | ⟨b, hb, hge⟩⟩ | ⟨rfl, _⟩)
+          · exact absurd hx h1
+          · have := hall b hb; omega
+          · rfl
+      · simp only [h3, Bool.false_eq_true, if_false]
+        have hpl := bits_lt_of_not_any h3
+        constructor
+        · intro h; cases h
+        · rintro (⟨_, hx | ⟨b, hb, hge⟩⟩ | ⟨_, _, _, p, hp, hge⟩)
+          · exact absurd hx h1
+          · have := hall b hb; omega
+          · have := hpl p hp; omega
+
+/-- (3) on a map that is not a wide mask the bit API raises: NotImplementedError (set / clear
+    and the bit-list operators), TypeError (check) -/
+theorem api_bits_not_wide (hk : ∀ n, m.kind ≠ .wide n) (pix bits : List Nat) (clear : Bool)
+    (op : String) :
+    apiSetBits m pix bits clear = .error .notImpl ∧ apiCheckBits m pix bits = .error .type ∧
+    apiScalarOp m op (.bits bits) = .error .notImpl :=
+  ⟨apiSetBits_not_wide hk pix bits clear, apiCheckBits_not_wide hk pix bits,
+    apiScalarOp_bits_not_wide hk op bits⟩
+
+/-- (3) errors of `check_bits_pix` on a wide mask: IndexError iff a pixel is outside the sphere
+    or a bit position is at or above `maxbits`; nothing else (an empty bit list is fine) -/
+theorem api_check_bits_error {pix bits : List Nat} (hk : m.kind = .wide n) (e : Err) :
+    apiCheckBits m pix bits = .error e ↔
+      e = .index ∧ ((∃ p ∈ pix, m.npix ≤ p) ∨ ∃ b ∈ bits, 8 * n ≤ b) := by
+  rw [apiCheckBits_wide hk]
+  by_cases h1 : (pix.any fun x => decide (x ≥ m.npix)) = true
+  · simp only [h1, if_true]
+    obtain ⟨p, hp, hge⟩ := List.any_eq_true.1 h1
+    exact ⟨fun h => by cases h; exact ⟨rfl, Or.inl ⟨p, hp, by simpa using hge⟩⟩,
+      fun ⟨h, _⟩ => by rw [h]⟩
+  · simp only [h1, Bool.false_eq_true, if_false]
+    have hpl := bits_lt_of_not_any h1
+    by_cases h2 : (bits.any fun x => decide (x ≥ 8 * n)) = true
+    · simp only [h2, if_true]
+      obtain ⟨b, hb, hge⟩ := List.any_eq_true.1 h2
+      exact ⟨fun h => by cases h; exact ⟨rfl, Or.inr ⟨b, hb, by simpa using hge⟩⟩,
+        fun ⟨h, _⟩ => by rw [h]⟩
+    · simp only [h2, Bool.false_eq_true, if_false]
+      have hall := bits_lt_of_not_any h2
+      constructor
+      · intro h; cases h
+      · rintro ⟨_, ⟨p, hp, hge⟩ | ⟨b, hb, hge⟩⟩
+        · have := hpl p hp; omega
+        · have := hall b hb; omega
+
+/-- (3) errors of a bit-list operator on a wide mask: NotImplementedError iff the operator is
+    not `and` / `or` / `xor`; otherwise ValueError iff the list is empty or names a position at
+    or above `maxbits`; nothing else -/
+theorem api_bits_operator_error (hk : m.kind = .wide n) (op : String) (l : List Nat) (e : Err) :
+    apiScalarOp m op (.bits l) = .error e ↔
+      (e = .notImpl ∧ intOnlyOp op = false) ∨
+      (e = .value ∧ intOnlyOp op = true ∧ (l = [] ∨ ∃ b ∈ l, 8 * n ≤ b)) := by
+  rw [apiScalarOp_bits_wide hk]
+  by_cases h0 : intOnlyOp op = true
+  · have h0' : ¬ (!intOnlyOp op) = true := by rw [h0]; decide
+    rw [if_neg h0']
+    by_cases h1 : l = []
+    · have hE : l.isEmpty = true := by rw [h1]; rfl
+      rw [if_pos hE]
+      constructor
+      · intro h; cases h; exact Or.inr ⟨rfl, h0, Or.inl h1⟩
+      · rintro (⟨_, hx⟩ | ⟨rfl, _⟩)
+        · rw [h0] at hx; cases hx
+        · rfl
+    · have he : ¬ l.isEmpty = true := by simpa using h1
+      rw [if_neg he]
+      by_cases h2 : (l.any fun x => decide (x ≥ 8 * n)) = true
+      · rw [if_pos h2]
+        obtain ⟨b, hb, hge⟩ := List.any_eq_true.1 h2
+        constructor
+        · intro h; cases h; exact Or.inr ⟨rfl, h0, Or.inr ⟨b, hb, by simpa using hge⟩⟩
+        · rintro (⟨_, hx⟩ | ⟨rfl, _⟩)
+          · rw [h0] at hx; cases hx
+          · rfl
+      · rw [if_neg h2]
+        have hall := bits_lt_of_not_any h2
+        constructor
+        · intro h; cases h
+        · rintro (⟨_, hx⟩ | ⟨_, _, hx | ⟨b, hb, hge⟩⟩)
+          · rw [h0] at hx; cases hx
+          · exact absurd hx h1
+          · have := hall b hb; omega
+  · have h0f : intOnlyOp op = false := by simpa using h0
+    have h0' : (!intOnlyOp op) = true := by rw [h0f]; rfl
+    rw [if_pos h0']
+    constructor
+    · intro h; cases h; exact Or.inl ⟨rfl, h0f⟩
+    · rintro (⟨rfl, _⟩ | ⟨_, hx, _⟩)
+      · rfl
+      · exact absurd hx h0
+
+/-- the bitwise meaning of an operator name: intersection, union, symmetric difference -/
+def opBool (op : String) (y c : Bool) : Bool :=
+  match op with
+  | "and" => y && c
+  | "or"  => y || c
+  | _     => y != c
+
+theorem bitsOpCell_spec {x : Val} (hx : isRowVal n x = true) (op : String) (l : List Nat)
+    (hl : ∀ b ∈ l, b < 8 * n) :
+    isRowVal n (bitsOpCell op n l x) = true ∧
+    ∀ b, hasBit (bitsOpCell op n l x) b = opBool op (hasBit x b) (l.contains b) := by
+  obtain ⟨c1, _, c3, c4⟩ := cell_ops hx l hl (.int 8 false)
+  unfold bitsOpCell opBool
+  split
+  · exact c3
+  · exact c1
+  · rename_i h1 h2
+    refine ⟨c4.1, fun b => ?_⟩
+    rw [c4.2 b]
+    split
+    · exact absurd rfl h1
+    · exact absurd rfl h2
+    · rfl
+
+/-- **(4) operators with a bit list** (`m & [bits]`, `m | [bits]`, `m ^ [bits]`, in place or
+    not).  On success the map with the new storage is again a `WideMap`; every VALID pixel's
+    set becomes `S ∩ l` / `S ∪ l` / `S △ l`; an invalid pixel (empty set) keeps its cell —
+    also under `or`: the operators act where the map is valid, they never create pixels; a
+    result with no bit left is invalid (`valid_iff_exists`). -/
+theorem api_bits_operator {op : String} {l : List Nat} {st : State Val} (hm : WideMap m n)
+    (h : apiScalarOp m op (.bits l) = .ok st) (x : Option Nat) :
+    WideMap { m with st := st, cache := x } n ∧
+    (op = "and" ∨ op = "or" ∨ op = "xor") ∧
+    (∀ p, p < m.npix → ∀ b, hasBit (({ m with st := st, cache := x } : MapObj).abs p) b =
+      if m.vc.valid (m.abs p) = true then opBool op (hasBit (m.abs p) b) (l.contains b)
+      else hasBit (m.abs p) b) ∧
+    (∀ p, p < m.npix → m.vc.valid (m.abs p) = false →
+      ({ m with st := st, cache := x } : MapObj).abs p = m.abs p ∧ ∀ b, hasBit (m.abs p) b = false) ∧
+    (∀ k, covered m.c st k = covered m.c m.st k) := by
+  rw [apiScalarOp_bits_wide hm.kind] at h
+  have hop := (WFApi.guard_ok h).1
+  replace h := (WFApi.guard_ok h).2
+  replace h := (WFApi.guard_ok h).2
+  have hl := bits_lt_of_not_any (WFApi.guard_ok h).1
+  replace h := (WFApi.guard_ok h).2
+  cases h
+  have hopn : op = "and" ∨ op = "or" ∨ op = "xor" := by
+    have : intOnlyOp op = true := by simpa using hop
+    unfold intOnlyOp at this
+    simp only [Bool.or_eq_true, beq_iff_eq] at this
+    rcases this with (h | h) | h
+    · exact Or.inl h
+    · exact Or.inr (Or.inl h)
+    · exact Or.inr (Or.inr h)
+  have habs : ∀ p, p < m.npix →
+      ({ m with st := scalarOp m.vc m.st (bitsOpCell op n l), cache := x } : MapObj).abs p
+        = if m.vc.valid (m.abs p) = true then bitsOpCell op n l (m.abs p) else m.abs p :=
+    fun p hp => scalarOp_abs hm.wf _ p hp
+  have hinv := WFApi.inv_scalarOp m.c m.vc m.st (bitsOpCell op n l) hm.wf.2
+    (MapObj.blankInvalid_of_wide hm.kind)
+  refine ⟨⟨⟨hm.wf.1, hinv⟩, hm.kind, hm.sent, hm.view, fun p hp => ?_⟩, hopn,
+    fun p hp b => ?_, fun p hp hv => ?_, fun k => rfl⟩
+  · rw [habs p hp]
+    split
+    · exact (bitsOpCell_spec (hm.rows p hp) op l hl).1
+    · exact hm.rows p hp
+  · rw [habs p hp]
+    split
+    · exact (bitsOpCell_spec (hm.rows p hp) op l hl).2 b
+    · rfl
+  · refine ⟨by rw [habs p hp, hv]; rfl, fun b => ?_⟩
+    cases hb : hasBit (m.abs p) b with
+    | false => rfl
+    | true =>
+      have := (valid_iff_exists hm (hm.rows p hp)).2 ⟨b, hb⟩
+      rw [hv] at this
+      cases this
+
+/-! ## The driver: rejected bit calls -/
+
+/-- **oversized bit positions (and every other rejected `bits` call) leave the world
+    untouched**: whatever `set_bits_pix` / `clear_bits_pix` answer other than `ok`, the driver
+    returns the very world it was given (`World` equality: every map, cache, file) -/
+theorem bits_rejected_world_unchanged (w : World) (a : Args) (hne : (opBits w a).2 ≠ "ok") :
+    (opBits w a).1 = w := opBits_not_ok w a hne
+
+/-- `check_bits_pix` is a pure query -/
+theorem chk_world_unchanged (w : World) (a : Args) : (opChk w a).1 = w := opChk_world w a
+
+/-- a rejected operator call (`sop`, e.g. `m |= [bits]` with an oversized position) in a world
+    reachable by any protocol history: every name still resolves to a map with the same
+    configuration, kind, sentinel, arrays and view flag (at most an `n_valid` cache is reset) -/
+theorem sop_rejected_stores_nothing (lines : List String) (a : Args)
+    (hne : (opSop (runLines lines) a).2 ≠ "ok") (x : String) :
+    ((opSop (runLines lines) a).1.get? x).map forgetCache
+      = ((runLines lines).get? x).map forgetCache :=
+  opSop_not_ok (Good.runLines lines) a hne x
+
+/-! ## Non-vacuity and the places where the set reading fails -/
+
+open WFApi (okAnd)
+
+def errIs {α : Type} (e : Err) : Except Err α → Bool
+  | .error e' => e' == e
+  | .ok _ => false
+
+/-- the set of a cell, as a list (for the examples) -/
+def bitsOf (n : Nat) (v : Val) : List Nat := (List.range (8 * n)).filter fun b => hasBit v b
+
+theorem mem_bitsOf {n : Nat} {v : Val} {b : Nat} : b ∈ bitsOf n v ↔ b < 8 * n ∧ hasBit v b = true := by
+  unfold bitsOf
+  rw [List.mem_filter, List.mem_range]
+
+/-- a 2-byte wide mask (`maxbits` 10 requested, 16 effective; 12 coverage pixels × 4 cells) with
+    bits {1, 9} set at pixels 0 and 5 -/
+def exWide : Except Err MapObj := do
+  let m ← apiMakeEmpty 0 1 (.wide 2) none []
+  apiSetBits m [0, 5] [1, 9] false
+
+/-- `exWide` is a `WideMap`; set with repeated pixels and repeated bits (set semantics), across
+    the byte boundary; other pixels untouched; coverage grows by the addressed coverage pixel -/
+example : okAnd exWide (fun m =>
+    decide (WideMap m 2) && decide m.Ok && bitsOf 2 (m.abs 0) == [1, 9] &&
+    okAnd (apiSetBits m [3, 3, 0, 3, 21] [2, 2, 7, 8, 15] false) fun m' =>
+      decide (WideMap m' 2) && bitsOf 2 (m'.abs 3) == [2, 7, 8, 15] &&
+      bitsOf 2 (m'.abs 0) == [1, 2, 7, 8, 9, 15] && m'.abs 5 == m.abs 5 && m'.abs 3 == .bytes [132, 129] &&
+      covered m.c m'.st 5 && !covered m.c m.st 5 && !covered m.c m'.st 4) = true := by
+  decide +kernel
+
+/-- clear: `S \ bits`; clearing the last bit makes the pixel INVALID and `n_valid` drops;
+    clearing bits of a pixel outside the coverage allocates its coverage pixel and leaves the
+    pixel empty (the model mirrors `update_values_pix(…, operation='and')`) -/
+example : okAnd exWide (fun m =>
+    okAnd (apiSetBits m [0, 5, 20] [9, 1] true) fun m' =>
+    okAnd (apiSetBits m [0] [9, 3] true) fun m'' =>
+      decide (WideMap m' 2) && bitsOf 2 (m'.abs 0) == [] && !m'.vc.valid (m'.abs 0) &&
+      nValid m.vc m.st == 2 && nValid m'.vc m'.st == 0 &&
+      covered m.c m'.st 5 && !covered m.c m.st 5 && bitsOf 2 (m'.abs 20) == [] &&
+      bitsOf 2 (m''.abs 0) == [1] && m''.vc.valid (m''.abs 0) && nValid m''.vc m''.st == 2) = true := by
+  decide +kernel
+
+/-- check: one answer per pixel, `true` iff the set meets the list; uncovered pixels and the
+    empty list answer `false` -/
+example : okAnd exWide (fun m =>
+    okAnd (apiCheckBits m [0, 1, 5, 40, 0] [9, 4]) fun l =>
+    okAnd (apiCheckBits m [0, 5] []) fun l' =>
+    okAnd (apiCheckBits m [0, 5] [4, 8]) fun l'' =>
+      l == [true, false, true, false, true] && l' == [false, false] && l'' == [false, false]) = true := by
+  decide +kernel
+
+/-- errors: bit position `maxbits` = 16 (ValueError for set / clear / operators whatever the
+    pixels, IndexError for check), empty list, out-of-range pixel, a non-wide map; position 12
+    (above the REQUESTED 10 bits, below the width) is accepted -/
+example : okAnd exWide (fun m =>
+    errIs .value (apiSetBits m [0] [16] false) && errIs .value (apiSetBits m [48] [3, 16] true) &&
+    errIs .value (apiSetBits m [0] [] false) && errIs .index (apiSetBits m [0, 48] [3] false) &&
+    errIs .index (apiCheckBits m [0] [16]) && errIs .index (apiCheckBits m [48] [1]) &&
+    errIs .value (apiScalarOp m "or" (.bits [16])) && errIs .value (apiScalarOp m "xor" (.bits [])) &&
+    errIs .notImpl (apiScalarOp m "add" (.bits [1])) &&
+    okAnd (apiSetBits m [0] [12] false) fun m' => bitsOf 2 (m'.abs 0) == [1, 9, 12]) = true ∧
+    okAnd (apiMakeEmpty 0 1 (.plain (.int 64 true)) none []) (fun m =>
+    errIs .notImpl (apiSetBits m [0] [1] false) && errIs .type (apiCheckBits m [0] [1]) &&
+    errIs .notImpl (apiScalarOp m "or" (.bits [1]))) = true := by
+  decide +kernel
+
+/-- operators: `S ∩ l`, `S ∪ l`, `S △ l` on the valid pixels; invalid pixels (pixel 1) stay empty
+    also under `or`; a set emptied by `and` / `xor` is invalid -/
+example : okAnd exWide (fun m =>
+    okAnd (apiScalarOp m "or" (.bits [3, 9])) fun s₁ =>
+    okAnd (apiScalarOp m "and" (.bits [9, 4])) fun s₂ =>
+    okAnd (apiScalarOp m "xor" (.bits [1, 9])) fun s₃ =>
+    okAnd (apiScalarOp m "xor" (.bits [1, 2])) fun s₄ =>
+      let a (s : State Val) (p : Nat) := ({ m with st := s, cache := none } : MapObj).abs p
+      decide (WideMap { m with st := s₁, cache := none } 2) &&
+      bitsOf 2 (a s₁ 0) == [1, 3, 9] && bitsOf 2 (a s₁ 1) == [] && bitsOf 2 (a s₂ 5) == [9] &&
+      bitsOf 2 (a s₃ 0) == [] && !m.vc.valid (a s₃ 0) && nValid m.vc s₃ == 0 &&
+      bitsOf 2 (a s₄ 0) == [2, 9]) = true := by
+  decide +kernel
+
+/-- **the set reading needs a zero sentinel** (`WideMap.sent`; `MapObj.Ok` does not give it):
+    the same arrays with sentinel 5 are `Ok`, and `set_bits_pix` raises ValueError (the `or`
+    update demands `sentinel == 0`).  Not reachable through `make_empty`, which refuses a
+    non-zero sentinel for a wide mask. -/
+example : okAnd exWide (fun m =>
+    let m5 : MapObj := { m with sent := .num 5 0 }
+    decide m5.Ok && !decide (WideMap m5 2) && errIs .value (apiSetBits m5 [0] [1] false) &&
+    errIs .value (apiMakeEmpty 0 1 (.wide 2) (some (.num 5 0)) [])) = true := by
+  decide +kernel
+
+/-- **the set reading needs byte cells** (`WideMap.rows`; model level only — a uint8 array
+    cannot hold 256): a raw array update with a row `[256, 0]` passes the checks of the model
+    (only the row LENGTH is compared); the pixel is then valid with an EMPTY set, `check` finds
+    no bit in it, `n_valid` counts it.  The harness never sends such a row. -/
+example : okAnd exWide (fun m =>
+    okAnd (apiUpdate m "replace" [7] (some [.bytes [256, 0]]) true) fun m' =>
+    okAnd (apiCheckBits m' [7] (List.range 16)) fun l =>
+      decide m'.Ok && !decide (WideMap m' 2) && m'.vc.valid (m'.abs 7) && bitsOf 2 (m'.abs 7) == [] &&
+      l == [false] && nValid m'.vc m'.st == 3) = true := by
+  decide +kernel
+
+/-- **`update_values_pix(…, operation='add')` with rows is not a set operation** (the model
+    mirrors numpy's byte-wise `add.at`): `{0} + {0} = {1}`.  `replace` / `or` / `and` with rows
+    are set operations (assignment, union, intersection). -/
+example : okAnd (apiMakeEmpty 0 1 (.wide 2) none []) (fun m =>
+    okAnd (apiUpdate m "replace" [2] (some [.bytes [1, 0]]) true) fun m₁ =>
+    okAnd (apiUpdate m₁ "add" [2] (some [.bytes [1, 0]]) true) fun m₂ =>
+    okAnd (apiUpdate m₁ "or" [2] (some [.bytes [4, 1]]) true) fun m₃ =>
+      bitsOf 2 (m₁.abs 2) == [0] && bitsOf 2 (m₂.abs 2) == [1] && bitsOf 2 (m₃.abs 2) == [0, 2, 8]) = true := by
+  decide +kernel
+
+/-- protocol level (`replay`: the outputs of a history) -/
+def replay (lines : List String) : List String :=
+  (lines.foldl (fun (wo : World × List String) l =>
+    let r := step wo.1 l; (r.1, wo.2 ++ [r.2])) ({}, [])).2
+
+/-! set / check / clear across the byte boundary; oversized positions rejected (ValueError for
+    set / clear / operators, IndexError for check) and the map unchanged afterwards; the empty
+    list (rejected by set, accepted by check); clear outside the coverage allocates -/
+#guard replay ["cfg w kind=wide maxbits=10 covord=0 spord=1", "bits w pix=0,5 bits=1,9", "chk w pix=0,1,5 bits=9",
+    "bits w pix=0 bits=16", "bits w pix=48 bits=16 mode=clear", "chk w pix=0 bits=16", "sop w op=or bits=16 r=y",
+    "bits w pix=0 bits=_", "chk w pix=0,1 bits=_", "valid w", "chk w pix=0,5 bits=1",
+    "bits w pix=20 bits=1 mode=clear", "covmask w", "valid w", "nvalid w",
+    "bits w pix=0 bits=1,9 mode=clear", "valid w", "nvalid w"]
+  == ["ok", "ok", "101", "err ValueError", "err ValueError", "err IndexError", "err ValueError",
+      "err ValueError", "00", "0,5", "11", "ok", "110001000000", "0,5", "2", "ok", "5", "1"]
+/-! the model-level byte-256 row and the byte-wise `add` -/
+#guard replay ["cfg w kind=wide maxbits=16 covord=0 spord=1", "upd w pix=7 val=b256.0", "valid w",
+    "chk w pix=7 bits=0,1,2,3,4,5,6,7,8,9,10,11,12,13,14,15", "nvalid w",
+    "upd w pix=2 val=b1.0", "upd w pix=2 val=b1.0 op=add", "chk w pix=2,2 bits=0", "chk w pix=2 bits=1"]
+  == ["ok", "ok", "7", "0", "1", "ok", "ok", "00", "1"]
+
 
 end C13
 end HS
